@@ -183,6 +183,12 @@ def execute(aiu, events, cfg, script=None, *, form='class', tie=1, tail=None, fr
                    'done_t': None, 'out': None, 'cancel_t': None, 'phase': phase}
             obs.calls.append(rec)
             t = loop.create_task(caller(rec, arg, key))
+
+            def _done(t, rec=rec):       # cancelled before its first step: the body never ran
+                if t.cancelled() and rec['out'] is None and not holder.get('over'):
+                    rec['out'] = ('cancelled',)
+                    rec['done_t'] = world.now
+            t.add_done_callback(_done)
             tasks.append(t)
             return t
 
